@@ -113,6 +113,13 @@ def gen_cases(tier, seed):
         kind, p, designed = c08_gen.gen_pattern(rng, i)
         cases.append(dict(id="c08_p%d" % i, prog=p, feats=["pattern:" + kind], inputs=[designed] + [c08_gen.gen_input(rng) for _ in range(ninp - 1)],
                           origin="generated call pattern around a disjunction (%s), designed input first" % kind))
+    # macro locals bound only through the arguments of nested invocations (two_hops family): every kind, rule shapes rotating
+    nnp = 2 * len(c08_gen.NPATTERNS) if tier == "quick" else 6 * len(c08_gen.NPATTERNS)
+    for i in range(nnp):
+        kind, shape, p, designed, leak = c08_gen.gen_nested_pattern(rng, i)
+        cases.append(dict(id="c08_q%d" % i, prog=p, feats=["nested_only_local:" + kind, "nested_only_local_rule:" + shape] + sorted(c08_gen.nested_only_feats(p)),
+                          inputs=[designed] + [c08_gen.gen_input(rng) for _ in range(ninp - 1)], leak=leak,
+                          origin="generated macro local bound only through nested invocations (%s, rule shape %s), designed input first" % (kind, shape)))
     nneg = 6 if tier == "quick" else 40
     negs = []
     for i in range(nneg):
@@ -241,6 +248,11 @@ def tie(tier, seed, replay):
             c["hand_text"] = cm.rust_text(c["hand"])
             jh = job(c["id"] + "_h", c["hand_text"], c["prog"]["rels"], c["inputs"])
             (exp_fail_jobs if any(h[0] != "facts" for h in c["hyg"]) else main_jobs).append(jh)
+        if c.get("leak") and c["hand"] is not None:
+            # the deliberately unhygienic expansion (the listed locals keep their spelling) on the designed input: it must
+            # differ from the hygienic one, otherwise the designed input would not notice sharing / capture of the local
+            c["leak_text"] = cm.rust_text(cm.hand_expand(c["prog"], leak=c["leak"]))
+            exp_fail_jobs.append(job(c["id"] + "_k", c["leak_text"], c["prog"]["rels"], c["inputs"][:1]))
     for c in negs:
         c["text"] = cm.rust_text(c["prog"])
         exp_fail_jobs.append(job(c["id"] + "_m", c["text"], c["prog"]["rels"], [{}]))
@@ -265,8 +277,16 @@ def tie(tier, seed, replay):
     # ---- compare
     feats, distinct, evaluations = {}, set(), 0
     nwf = 0
+    sensitive, insensitive = 0, []
     for c in cases:
         rels = c["prog"]["rels"]
+        if c.get("leak_text"):
+            ik = impl_outcome((impl.get(c["id"] + "_k") or [None])[0], rels)
+            i0 = impl_outcome((impl.get(c["id"] + "_h") or [None])[0], rels)
+            if i0[0] == "facts" and ik[0] != "missing" and not same(ik, i0):
+                sensitive += 1
+            else:
+                insensitive.append(dict(id=c["id"], feats=c["feats"][:2], hygienic=short(i0), leaking=short(ik)))
         wf = c["wf"]
         all_wf = bool(wf[3])
         nwf += 1 if all_wf else 0
@@ -341,7 +361,8 @@ def tie(tier, seed, replay):
                      "x 2-3 input databases; every program is run (a) through the real macro, (b) as its python hand expansion through the real macro, (c) as the Coq model's expansion and (d) as the Coq reference expansion under Engine/Sem.v; "
                      "plus programs violating exactly one hypothesis of the theorem, recursive macro tables, and the corpus; non-trivial = the macro program derives at least one fact; distinct = distinct (program text, input)",
                 samples=samples,
-                distribution=dict(programs=len(cases), satisfying_theorem_hypotheses=nwf, negatives=len(negs), negative_kinds=neg_kinds, raw_corpus=len(raws), termination_witnesses=len(hangs), features=feats),
+                distribution=dict(programs=len(cases), satisfying_theorem_hypotheses=nwf,
+                                  designed_inputs_telling_a_leaking_local_apart=dict(sensitive=sensitive, insensitive=insensitive), negatives=len(negs), negative_kinds=neg_kinds, raw_corpus=len(raws), termination_witnesses=len(hangs), features=feats),
                 mismatches=mism,
                 trusted_base=["gen/c08_macros.py renderers (Rust text, Gallina term) and the python hand expander; gen/prog.py generated crates",
                               "Macros/MacroEval.v: translation of an expanded rule to Engine/Core.v and the scoping check standing for rustc's / ascent's compile errors",
